@@ -333,6 +333,11 @@ def sweep_family(fam, bins, modelrun, mismatches):
     samples = []
     for prof in fam.get("profiles", ["release"]):
         cmd = [bins[prof], "sweep"] + fam["sweep"] + ["--expect", fam["expect"], "--threads", str(NPROC)]
+        if fam.get("blank_case"):
+            # the constant for cases holding a blank is read off the model on one such case
+            mb = subprocess.run(["bash", "-c", "ulimit -s unlimited; exec \"$@\"", "x", modelrun, "--chk", "1" if prof == "chk" else "0"],
+                                input=fam["blank_case"] + "\n", stdout=subprocess.PIPE, text=True, timeout=600)
+            cmd += ["--expect-blank", mb.stdout.strip()]
         r = subprocess.run(cmd, stdout=subprocess.PIPE, stderr=subprocess.PIPE, text=True)
         if r.returncode not in (0, 3):
             raise Broken("runner", "%s: %s" % (" ".join(cmd), r.stderr[-2000:]))
